@@ -26,27 +26,40 @@ func init() {
 }
 
 func runB64Std(rc *RuleCtx) {
-	for _, fn := range rc.W.Funcs {
-		if fn.Blocks == nil || strings.HasPrefix(pkgRel(fn), "testdata") {
+	// by identifier: base64x declares its codecs as constants, encoding/base64 as variables
+	for _, p := range rc.W.Pkgs {
+		rel := strings.TrimPrefix(strings.TrimPrefix(p.PkgPath, modPath), "/")
+		if strings.HasPrefix(rel, "testdata") {
 			continue
 		}
-		for _, b := range fn.Blocks {
-			for _, ins := range b.Instrs {
-				for _, op := range ins.Operands(nil) {
-					g, ok := (*op).(*ssa.Global)
-					if !ok || g.Pkg == nil {
-						continue
+		for _, f := range p.Syntax {
+			for _, d := range f.Decls {
+				fd, ok := d.(*ast.FuncDecl)
+				if !ok || fd.Body == nil {
+					continue
+				}
+				name := declName(rel, fd)
+				ast.Inspect(fd.Body, func(n ast.Node) bool {
+					id, ok := n.(*ast.Ident)
+					if !ok {
+						return true
 					}
-					pp := g.Pkg.Pkg.Path()
+					obj := p.TypesInfo.Uses[id]
+					if obj == nil || obj.Pkg() == nil {
+						return true
+					}
+					pp := obj.Pkg().Path()
 					if pp != "encoding/base64" && !strings.HasSuffix(pp, "/base64x") {
-						continue
+						return true
 					}
-					switch g.Name() {
+					switch obj.Name() {
 					case "URLEncoding", "RawURLEncoding", "RawStdEncoding", "JSONStdEncoding":
 						rc.Examined++
-						rc.bad(fn, pp[strings.LastIndex(pp, "/")+1:]+"."+g.Name(), ins.Pos(), "a base64 codec other than the padded standard alphabet: what the library's own encoders (and every JSON / thrift peer) write with `+`, `/` or `=` is rejected or decoded differently")
+						rc.add(nil, name, pp[strings.LastIndex(pp, "/")+1:]+"."+obj.Name(), id.Pos(), "violated",
+							"a base64 codec other than the padded standard alphabet: what the library's own encoders (and every JSON / thrift peer) write with `+`, `/` or `=` is rejected or decoded differently", true)
 					}
-				}
+					return true
+				})
 			}
 		}
 	}
@@ -518,6 +531,234 @@ func runErrValDesc(rc *RuleCtx) {
 				rc.verdict(good, fn, "self.Desc."+c.Call.StaticCallee().Name(), c.Pos(), map[bool]string{
 					true:  "the descriptor is used under an error / nil test",
 					false: "the receiver's descriptor is dereferenced with no preceding error test: the receiver may be the error Value (nil descriptor) returned by a previous getter of a chained lookup — nil pointer dereference on truncated input"}[good], true)
+			}
+		}
+	}
+}
+
+// ---------------------------------------------------------------------------------------------
+// FIELDLOOPEXIT
+// ---------------------------------------------------------------------------------------------
+
+func init() {
+	register(&Rule{
+		Name:     "FIELDLOOPEXIT",
+		Doc:      "a thrift struct is read to its STOP byte: in every loop that reads field headers (a call of ReadFieldBegin inside the loop), the only ways out of the loop other than an error return are tests of the header just read (`type == STOP`; in a locator also `id == wanted`). A `break` where a `continue` was meant — after the response base was extracted into the context, after a field was mapped to a header — silently drops every field that follows on the wire (the one test message has the base as its last field)",
+		Configs:  "NP",
+		Floor:    map[string]int{"N": 10, "P": 10},
+		Controls: 1,
+		Run:      runFieldLoopExit,
+	})
+}
+
+func runFieldLoopExit(rc *RuleCtx) {
+	ec := rc.W.EC()
+	for _, fn := range rc.W.Funcs {
+		if fn.Blocks == nil || strings.HasPrefix(pkgRel(fn), "testdata") {
+			continue
+		}
+		for _, lp := range naturalLoops(fn) {
+			var hdr *ssa.Call
+			for b := range lp.blocks {
+				for _, ins := range b.Instrs {
+					if c, ok := ins.(*ssa.Call); ok && c.Call.StaticCallee() != nil && c.Call.StaticCallee().Name() == "ReadFieldBegin" {
+						hdr = c
+					}
+				}
+			}
+			if hdr == nil {
+				continue
+			}
+			// innermost loop containing the call only
+			inner := true
+			for _, other := range naturalLoops(fn) {
+				if other != lp && other.blocks[hdr.Block()] && len(other.blocks) < len(lp.blocks) {
+					inner = false
+				}
+			}
+			if !inner {
+				continue
+			}
+			rc.Examined++
+			// deterministic order
+			var blocks []*ssa.BasicBlock
+			for _, b := range fn.Blocks {
+				if lp.blocks[b] {
+					blocks = append(blocks, b)
+				}
+			}
+			exits := 0
+			for _, b := range blocks {
+				for _, s := range b.Succs {
+					if lp.blocks[s] {
+						continue
+					}
+					// leaving through an ERROR return (or a panic) is fine
+					if ret, isRet := lastInstr(s).(*ssa.Return); isRet {
+						ei := errIndex(fn.Signature)
+						if ei >= 0 && ei < len(ret.Results) {
+							if ec.nonNil(ret.Results[ei], s, map[ssa.Value]bool{}) {
+								continue
+							}
+							known := false
+							for _, cd := range controllingIfs(s) {
+								if subj, nilOnTrue, ok := nilTest(cd.cond); ok && subj == ret.Results[ei] && cd.val != nilOnTrue {
+									known = true
+								}
+							}
+							if known {
+								continue
+							}
+						}
+					}
+					if _, isPanic := lastInstr(s).(*ssa.Panic); isPanic {
+						continue
+					}
+					// `if err != nil { return <something built from err> }`
+					if iff, ok := lastInstr(b).(*ssa.If); ok {
+						if _, isRet := lastInstr(s).(*ssa.Return); isRet {
+							if subj, nilOnTrue, ok := nilTest(iff.Cond); ok && types.Implements(subj.Type(), errorIface()) {
+								if (b.Succs[0] == s) != nilOnTrue {
+									continue
+								}
+							}
+						}
+					}
+					exits++
+					what, onHeader := "unconditional", false
+					pos := hdr.Pos()
+					if iff, ok := lastInstr(b).(*ssa.If); ok {
+						k, _ := condKey(iff.Cond)
+						what = "value"
+						if ph, ok := k.(*ssa.Phi); ok && ph.Comment != "" {
+							what = ph.Comment
+						}
+						if bo, ok := k.(*ssa.BinOp); ok {
+							what = "comparison"
+							pos = bo.Pos()
+							if bo.Op == token.EQL || bo.Op == token.NEQ {
+								for _, op := range []ssa.Value{bo.X, bo.Y} {
+									v := op
+									for {
+										if cv, ok := v.(*ssa.Convert); ok {
+											v = cv.X
+											continue
+										}
+										if ct, ok := v.(*ssa.ChangeType); ok {
+											v = ct.X
+											continue
+										}
+										break
+									}
+									if ex, ok := v.(*ssa.Extract); ok && ex.Tuple == ssa.Value(hdr) {
+										onHeader = true
+										what = "the field header"
+									}
+								}
+							}
+						}
+					}
+					rc.verdict(onHeader, fn, "loop exit on "+what, pos, map[bool]string{
+						true:  "the field loop is left on a test of the header just read (STOP, or the id looked for)",
+						false: "the field loop is left (break) on a condition that is not a test of the field header: the fields after that point are never read"}[onHeader], true)
+				}
+			}
+			if exits == 0 {
+				rc.ok(fn, "loop exit", hdr.Pos(), "the field loop is left only by returning", false)
+			}
+		}
+	}
+}
+
+func errorIface() *types.Interface {
+	return types.Universe.Lookup("error").Type().Underlying().(*types.Interface)
+}
+
+// ---------------------------------------------------------------------------------------------
+// LASTBYTEPATCH
+// ---------------------------------------------------------------------------------------------
+
+func init() {
+	register(&Rule{
+		Name:     "LASTBYTEPATCH",
+		Doc:      "a JSON writer never closes a container by overwriting the last output byte unconditionally: a store to `out[len(out)-1]` in the JSON-producing packages (conv/t2j, conv/p2j, thrift/annotation, internal/json, thrift) is control-dependent on a test that an element (and thus a separator) was written — a comparison of the element count or of that very byte. `append(',')` after every element and `out[len(out)-1] = ']'` at the end turns the `[` of an EMPTY list into `]` (`{\"Ids\":],…}`: malformed, nil error). Expected count zero today (the writers emit the separator conditionally); the control keeps the matcher alive",
+		Configs:  "NP",
+		Floor:    map[string]int{"N": 0, "P": 0},
+		Controls: 1,
+		Run:      runLastBytePatch,
+	})
+}
+
+func runLastBytePatch(rc *RuleCtx) {
+	for _, fn := range rc.W.Funcs {
+		if fn.Blocks == nil {
+			continue
+		}
+		rel := pkgRel(fn)
+		if !(strings.HasPrefix(rel, "conv/") || rel == "thrift/annotation" || rel == "internal/json" || rel == "thrift") {
+			continue
+		}
+		for _, b := range fn.Blocks {
+			for _, ins := range b.Instrs {
+				st, ok := ins.(*ssa.Store)
+				if !ok {
+					continue
+				}
+				ia, ok := st.Addr.(*ssa.IndexAddr)
+				if !ok {
+					continue
+				}
+				sub, ok := ia.Index.(*ssa.BinOp)
+				if !ok || sub.Op != token.SUB {
+					continue
+				}
+				if k, isC := constInt(sub.Y); !isC || k != 1 {
+					continue
+				}
+				if _, isLen := builtinCallOf(sub.X, "len"); !isLen {
+					continue
+				}
+				if bt, ok := st.Val.Type().Underlying().(*types.Basic); !ok || bt.Kind() != types.Uint8 {
+					continue
+				}
+				rc.Examined++
+				good := false
+				loops := naturalLoops(fn)
+				for _, cd := range controllingIfs(b) {
+					// the exit test of a loop that b lies behind is not a guard of the store
+					exitTest := false
+					for _, l := range loops {
+						if l.blocks[cd.ifb] && !l.blocks[b] {
+							exitTest = true
+						}
+					}
+					if exitTest {
+						continue
+					}
+					k, _ := condKey(cd.cond)
+					if bo, ok := k.(*ssa.BinOp); ok {
+						switch bo.Op {
+						case token.GTR, token.GEQ, token.LSS, token.LEQ, token.NEQ, token.EQL:
+							// a test of a count against 0 (something was written), or of an output byte
+							for _, pair := range [][2]ssa.Value{{bo.X, bo.Y}, {bo.Y, bo.X}} {
+								if z, isC := constInt(pair[1]); isC && z == 0 {
+									if bt, ok := pair[0].Type().Underlying().(*types.Basic); ok && (bt.Kind() == types.Int || bt.Kind() == types.Int32 || bt.Kind() == types.Int64) {
+										good = true
+									}
+								}
+								if u, ok := pair[0].(*ssa.UnOp); ok && u.Op == token.MUL {
+									if _, isIdx := u.X.(*ssa.IndexAddr); isIdx {
+										good = true
+									}
+								}
+							}
+						}
+					}
+				}
+				// a loop back-edge is not such a test: the store has to be guarded where it stands
+				rc.verdict(good, fn, "patch of the last output byte", st.Pos(), map[bool]string{
+					true:  "the last byte is overwritten only under a test",
+					false: "the last output byte is overwritten unconditionally: when nothing was appended since the opening bracket, the bracket itself is overwritten"}[good], true)
 			}
 		}
 	}
